@@ -1,8 +1,65 @@
 /-
-  C18 — property theorems (see DESIGN.md §5 C18).
+  C18 — property theorems (see DESIGN.md §5 C18): totality of the dependency parser on
+  arbitrary input bytes.
+  Property theorems only; lemmas live in GoDebian/Lemmas/DepFix{Basic,Inv,Total}.lean.
 -/
 import GoDebian.Model.Codec
 import GoDebian.Model.Changelog
+import GoDebian.Model.Dependency
+import GoDebian.Lemmas.ArchIs
+import GoDebian.Lemmas.DepFixTotal
 
 namespace GoDebian.Props.C18
+open GoDebian GoDebian.Dep
+
+/-- The parser never runs out of fuel and never takes the nil-pointer branch: for every
+    input it returns a value or an ordinary error.  (Every fuelled loop is started with
+    fuel = remaining length + 1 and every iteration returns or continues on a strictly
+    shorter input; the possibility under construction always has `archs = some _`.) -/
+theorem C18_dep_total (s : Bytes) :
+    Dep.parse s ≠ .error .fuel ∧ Dep.parse s ≠ .error .panic :=
+  Lemmas.DepFix.parse_total s
+
+/-- Both remaining outcomes occur, on inputs that exercise every loop: nested `[...]`,
+    `<...>`, `(...)`, a qualifier, a substvar, NUL and unterminated brackets. -/
+example :
+    (Dep.parse (Bytes.ofString "a:any [!x !y] (>= 1) <s !t> <u> | ${v}, b")).toBool = true ∧
+    Dep.parse (Bytes.ofString "a [x") = .error .err ∧
+    Dep.parse (Bytes.ofString "a <x") = .error .err ∧
+    Dep.parse (Bytes.ofString "a (>= 1") = .error .err ∧
+    Dep.parse (Bytes.ofString "a [x] [y]") = .error .err ∧
+    Dep.parse (Bytes.ofString "${v") = .error .err ∧
+    Dep.parse [97, 32, 91, 0, 93] = .error .err ∧
+    Dep.parse [97, 0, 98] = .ok [[⟨[97], none, some ⟨false, []⟩, [], none, false⟩]] := by
+  decide +kernel
+
+/-- `ParseArch` never fails: `SplitN` with limit 3 yields one to three parts and every
+    case assigns all three fields. -/
+theorem C18_arch_total (s : Bytes) : ∃ a, Dep.parseArch s = .ok a :=
+  Lemmas.DepFix.parseArch_total s
+
+/-- The three shapes, including the empty string and a name with more than two dashes. -/
+example :
+    Dep.parseArch [] = .ok ⟨sGnu, sLinux, []⟩ ∧
+    Dep.parseArch (Bytes.ofString "-") = .ok ⟨sAny, [], []⟩ ∧
+    Dep.parseArch (Bytes.ofString "a-b-c-d-") =
+      .ok ⟨Bytes.ofString "a", Bytes.ofString "b", Bytes.ofString "c-d-"⟩ := by
+  decide +kernel
+
+/-- `ParseArchitectures` returns a value or an ordinary error for every input (in fact it
+    always returns a value, since `ParseArch` cannot fail). -/
+theorem C18_archlist_total (s : Bytes) :
+    Dep.parseArchitectures s ≠ .error .fuel ∧ Dep.parseArchitectures s ≠ .error .panic := by
+  obtain ⟨l, h⟩ := Lemmas.DepFix.parseArchitectures_total s
+  rw [h]
+  exact ⟨nofun, nofun⟩
+
+/-- Repeated blanks, tabs around an element and an all-blank input. -/
+example :
+    Dep.parseArchitectures (Bytes.ofString "amd64  \tlinux-any\t  any-i386 ") =
+      .ok [⟨sGnu, sLinux, Bytes.ofString "amd64"⟩, ⟨sAny, sLinux, sAny⟩,
+           ⟨sAny, sAny, Bytes.ofString "i386"⟩] ∧
+    Dep.parseArchitectures (Bytes.ofString "   ") = .ok [] := by
+  decide +kernel
+
 end GoDebian.Props.C18
